@@ -567,3 +567,112 @@ def run_notebook(ctx, res, thorough):
             res.violations.append({"what": "IPython cells: a cell fails under dds: %s" % (real_errs[0],), "input": {"cells": NOTEBOOK_CELLS}, "kf": None})
     finally:
         shutil.rmtree(base, ignore_errors=True)
+
+
+def gen_ce(rng, depth, counter):
+    """a call expression over the module functions h0.. (every call its own function, so that it can be recognised)"""
+    r = rng.random()
+    if depth <= 0 or r < 0.25:
+        return {"t": "atom"}
+    if r < 0.75 and counter[0] < 8:
+        i = counter[0]
+        counter[0] += 1
+        nargs = rng.randint(0, 3)
+        args = {"t": "atom"}
+        items = [gen_ce(rng, depth - 1, counter) for _ in range(nargs)]
+        for it in reversed(items):
+            args = {"t": "pair", "a": it, "b": args}
+        return {"t": "call", "id": i, "func": {"t": "atom"}, "args": args, "style": rng.choice(["pos", "kw"])}
+    return {"t": "pair", "a": gen_ce(rng, depth - 1, counter), "b": gen_ce(rng, depth - 1, counter), "style": "op"}
+
+
+def flatten_args(args):
+    out = []
+    while args["t"] == "pair" and args.get("style") != "op":
+        out.append(args["a"])
+        args = args["b"]
+    return out
+
+
+def render_ce(e):
+    if e["t"] == "atom":
+        return "1"
+    if e["t"] == "pair":
+        return "(%s, %s)" % (render_ce(e["a"]), render_ce(e["b"]))
+    items = flatten_args(e["args"])
+    if e.get("style") == "kw":
+        parts = ["a%d=%s" % (j, render_ce(x)) for j, x in enumerate(items)]
+    else:
+        parts = [render_ce(x) for x in items]
+    return "h%d(%s)" % (e["id"], ", ".join(parts))
+
+
+def run_order(ctx, res, thorough):
+    """the order in which the calls of an expression are analysed (it decides what is in the context of each call): the real
+    analysis (parsed_body), the model (ddsOrder / pyOrder, theorem C01.calls_analysed_in_evaluation_order) and Python itself (the
+    order in which the functions are entered when the expression is evaluated)"""
+    rng = ctx["rng"]
+    import dds
+    n_cases = 120 if thorough else 40
+    base = tempfile.mkdtemp(prefix="ddsverif_c01o_")
+    pkg = "c1o_%d" % os.getpid()
+    try:
+        os.makedirs(os.path.join(base, pkg))
+        open(os.path.join(base, pkg, "__init__.py"), "w").close()
+        sys.path.insert(0, base)
+        dds.accept_module(pkg)
+        src = "ENTERED = []\n\n" + "".join("def h%d(*a, **k):\n    ENTERED.append(%d)\n    return %d\n\n\n" % (i, i, i) for i in range(8))
+        cases = []
+        for ci in range(n_cases):
+            counter = [0]
+            e = gen_ce(rng, 4, counter)
+            if counter[0] < 2:
+                continue
+            cases.append((ci, e))
+            src += "def f%d():\n    return %s\n\n\n" % (ci, render_ce(e))
+        with open(os.path.join(base, pkg, "order.py"), "w") as fh:
+            fh.write(src)
+        answers = common.drv_batch([{"op": "order", "e": strip(e)} for (_, e) in cases]) if ctx["driver_ok"] else []
+        import importlib
+        from dds.introspect import introspect
+        from dds._eval_ctx import EvalMainContext
+        from dds.fun_args import get_arg_ctx
+        import dds.introspect as di
+        mod = importlib.import_module(pkg + ".order")
+        for idx, (ci, e) in enumerate(cases):
+            f = getattr(mod, "f%d" % ci)
+            res.evaluations += 1
+            res.count("order_cases")
+            res.nontrivial("order " + render_ce(e))
+            del mod.ENTERED[:]
+            f()
+            python_order = list(mod.ENTERED)
+            try:
+                ectx = EvalMainContext(f.__module__, whitelisted_packages=di._accepted_packages, start_globals={}, resolved_references=OrderedDict())
+                fis = introspect(f, ectx, get_arg_ctx(f, (), {}))
+                impl = [int(str(x.fun_path).strip("<>").split("/")[-1][1:]) for x in fis.parsed_body]
+            except BaseException as ex:
+                res.disagreements.append({"what": "the analysis of a function with nested calls fails: %s: %s" % (type(ex).__name__, str(ex)[:120]), "source": render_ce(e)})
+                continue
+            if impl != python_order:
+                res.count("order_cases_where_the_analysis_differs_from_python")
+            if not answers:
+                if impl != python_order:
+                    res.disagreements.append({"what": "calls analysed in the order %s, Python makes them in the order %s" % (impl, python_order), "source": render_ce(e)})
+                continue
+            m = answers[idx]
+            if m.get("python") != python_order:
+                res.disagreements.append({"what": "model pyOrder differs from the order in which Python enters the functions", "model": m.get("python"),
+                                          "python": python_order, "source": render_ce(e)})
+            if m.get("dds") != impl:
+                res.disagreements.append({"what": "the order in which the analysis records the calls of an expression differs from the model ddsOrder",
+                                          "analysis": impl, "model": m.get("dds"), "source": render_ce(e)})
+        if len(res.disagreements) > 6:
+            del res.disagreements[6:]
+    finally:
+        if base in sys.path:
+            sys.path.remove(base)
+        for k in list(sys.modules):
+            if k.split(".")[0] == pkg:
+                del sys.modules[k]
+        shutil.rmtree(base, ignore_errors=True)
